@@ -13,6 +13,7 @@ func f64frombits(u uint64) float64 { return math.Float64frombits(u) }
 type Problem struct {
 	Rule string
 	Msg  string
+	Col  int // leaf column the problem is about, -1 if none
 }
 
 // Expect carries what the writer was configured with (optional checks).
@@ -41,11 +42,12 @@ type Result struct {
 	Chunks   [][]*ChunkData // [row group][column]
 	Streams  [][]Entry      // per leaf, all row groups concatenated
 	Counts   map[string]int // what was evaluated (evidence)
+	curCol   int
 }
 
 func (r *Result) bad(rule, format string, a ...any) {
 	if len(r.Problems) < 40 {
-		r.Problems = append(r.Problems, Problem{Rule: rule, Msg: fmt.Sprintf(format, a...)})
+		r.Problems = append(r.Problems, Problem{Rule: rule, Msg: fmt.Sprintf(format, a...), Col: r.curCol})
 	}
 }
 
@@ -54,7 +56,7 @@ func (r *Result) seen(rule string) { r.Counts[rule]++ }
 // Validate checks every invariant of DESIGN §4 C02 that can be decided from
 // the bytes alone and decodes all column streams.
 func Validate(data []byte, ex Expect) *Result {
-	res := &Result{Counts: map[string]int{}}
+	res := &Result{Counts: map[string]int{}, curCol: -1}
 	f, err := Parse(data)
 	if err != nil {
 		res.bad("envelope", "%v", err)
@@ -109,7 +111,9 @@ func Validate(data []byte, ex Expect) *Result {
 			}
 			sumUnc += ch.TotalUncompressed
 			sumComp += ch.TotalCompressed
+			res.curCol = ci
 			res.validateChunk(f, gi, ci, cd, ex)
+			res.curCol = -1
 			for _, dp := range cd.Data {
 				res.Streams[ci] = append(res.Streams[ci], dp.Entries...)
 			}
